@@ -505,7 +505,7 @@ fn pubsub_scenario(seed: u64, log: &mut Vec<String>) -> Result<(), (String, &'st
                 return Err((format!("{when}: healthy subscriber {i} never received message {m}, published after it registered"), "C01"));
             }
             if st.flushed != g.len() {
-                return Err((format!("{when}: {} message(s) handed to healthy subscriber {i} were never flushed", g.len() - st.flushed), "C01"));
+                return Err((format!("{when}: {} message(s) handed to healthy subscriber {i} were never flushed", g.len() - st.flushed), "C01 C09"));  // (the router sleeps with work it alone can finish)
             }
         }
         Ok(())
@@ -519,7 +519,7 @@ fn pubsub_scenario(seed: u64, log: &mut Vec<String>) -> Result<(), (String, &'st
     if let Err((e, p)) = quiescent {
         // undelivered or unflushed before shutdown: does finishing repair it?  If not, the shutdown clause is broken as well.
         return match check(&subs, "after shutdown") {
-            Err(_) if ex.done => Err((format!("{e} (and still so after the router finished)"), if p == "C01" { "C01 C16" } else { "C01 C09 C16" })),
+            Err(_) if ex.done => Err((format!("{e} (and still so after the router finished)"), if p == "C01" { "C01 C16" } else { "C01 C09 C16" } /* (p is "C01 C09" for unflushed data) */)),
             _ => Err((e, p)),
         };
     }
@@ -624,8 +624,10 @@ fn reqrep_scenario(seed: u64, log: &mut Vec<String>) -> Result<(), (String, &'st
                     counter += 1;
                     let body = format!("q{counter}-from-{i}").into_bytes();
                     // some requestors lie about where the request comes from, or send other headers
-                    let headers = match r.below(4) {
+                    let headers = match r.below(5) {
                         0 => None,
+                        // a header whose name differs from the routing tag only in case is the requestor's own business
+                        4 => Some(HashMap::from([(if counter % 2 == 0 { "CID" } else { "Cid" }.to_string(), format!("{}", (i + 1) % reqs.len().max(1)))])),
                         1 => Some(HashMap::from([("cid".to_string(), format!("{}", (i + 1) % reqs.len().max(1)))])),
                         2 => Some(HashMap::from([("cid".to_string(), "not-a-number".to_string()), ("k".to_string(), "v".to_string())])),
                         _ => Some(HashMap::from([("trace".to_string(), "t".to_string())])),
